@@ -891,6 +891,7 @@ fn fault_events<F: Fam>(out: &mut Out, rng: &mut Rng, p: &F::Packet) {
                 if k < n {
                     let chunk = if rng.bool() { usize::MAX } else { 1 + rng.below(4) as usize };
                     let step = if is_eof_step { RStep::Eof } else { RStep::Err(*kind) };
+                    let pend_first = rng.chance(1, 3);
                     for front in ["async", "poll"] {
                         let r = guarded(|| {
                             let mut script = Vec::new();
@@ -899,6 +900,9 @@ fn fault_events<F: Fam>(out: &mut Out, rng: &mut Rng, p: &F::Packet) {
                                 let c = chunk.min(left);
                                 script.push(RStep::Data(c));
                                 left -= c;
+                            }
+                            if pend_first {
+                                script.push(RStep::Pending); // the fault arrives after a not-ready answer
                             }
                             script.push(step);
                             let mut rd = ScriptedReader::new(Arc::new(b.clone()), script, step);
